@@ -36,14 +36,16 @@ BLK == <<47, 42, 42, 47>>                        \* /**/
 BLKX == <<47, 42, 32, 120, 32, 42, 47>>          \* /* x */
 BLK3 == <<47, 42, 42, 42, 47>>                   \* /***/   (a body that ends in a star)
 BLKS == <<47, 42, 47, 32, 42, 47>>               \* /*/ */  (a body that starts with a slash)
+BLKU == <<47, 42, 228, 8364, 42, 47>>            \* /*ae-umlaut euro-sign*/  (multi-byte characters in the body)
+LINEU == <<47, 47, 228, 10>>                     \* //ae-umlaut NL
 VT == <<11>>
 LINE == <<47, 47, 32, 121, 10>>                  \* // y NL
 LINECR == <<47, 47, 13, 43, 49, 10>>             \* // CR +1 NL  (only the line feed ends a line comment)
 \* the single space is the baseline rendering (Plain), so the small set spends its four slots on the other kinds
 Seps == CASE SepSet = "small" -> {<<>>, IDSP, BLK3, LINE}
-          [] SepSet = "six" -> {<<>>, NLs, NBSP, BLKX, BLKS, LINECR}
-          [] SepSet = "medium" -> {<<>>, SP, TAB, NLs, VT, NBSP, BLK, BLKX, BLKS, LINE, LINECR}
-          [] OTHER -> {<<>>, SP, TAB, NLs, VT, NBSP, EMSP, IDSP, BLK, BLKX, BLK3, BLKS, LINE, LINECR, SP \o BLK, BLK \o SP}
+          [] SepSet = "six" -> {<<>>, NLs, NBSP, BLKU, BLKS, LINECR}
+          [] SepSet = "medium" -> {<<>>, SP, TAB, NLs, VT, NBSP, BLK, BLKX, BLKS, LINE, LINECR, BLKU, LINEU}
+          [] OTHER -> {<<>>, SP, TAB, NLs, VT, NBSP, EMSP, IDSP, BLK, BLKX, BLK3, BLKS, BLKU, LINE, LINECR, LINEU, SP \o BLK, BLK \o SP}
 
 Init == toks = <<>> /\ gaps = <<>> /\ tail = <<>>
 Next == /\ Len(toks) < MaxLen
